@@ -248,6 +248,27 @@ def hPfxFn : Handler
     pure ⟨m, o, (if r.isSome then "ok" else "err")⟩
   | _, _ => none
 
+/-- `pfxseq kind ap [b₁,…,bₙ]`: one long-lived decode function is applied to b₁ … bₙ in turn and every
+delivered slice is read only after the last call. Each result must still be what the decoder of that
+input alone prescribes (exactness over histories: a later call must not change an earlier result). -/
+def hPfxSeq : Handler
+  | [kind, ap, bs], impl => do
+    let apB ← Term.asBool ap
+    let bs ← Term.asList bs
+    let impls ← Term.asList impl
+    if impls.length != bs.length then
+      return ⟨.atom "length-mismatch", .fail "C19 one result per call", "seq"⟩
+    let vs ← (bs.zip impls).mapM fun (b, i) => hPfxFn [kind, ap, b] i
+    let _ := apB
+    let m := Term.list (vs.map (·.model))
+    let o := match vs.find? fun v => match v.oracle with | .fail _ => true | _ => false with
+      | some v => (match v.oracle with
+          | .fail c => Oracle.fail (c ++ " — also after later calls of the same decode function")
+          | x => x)
+      | none => .ok
+    pure ⟨m, o, s!"seq/n{min bs.length 6}"⟩
+  | _, _ => none
+
 def hMp6Nh : Handler
   | [b], impl => do
     let b ← Term.asBytes b
@@ -464,7 +485,7 @@ def hBitmap : Handler
 
 def updateHandlers : List (String × Handler) :=
   attrDecs.map (fun d => ("attr." ++ d.name, hAttr d)) ++
-  [("flags", hFlags), ("pfx", hPfx), ("pfxfn", hPfxFn), ("mp6nh", hMp6Nh), ("mp6pfx", hMp6Pfx),
+  [("flags", hFlags), ("pfx", hPfx), ("pfxfn", hPfxFn), ("pfxseq", hPfxSeq), ("mp6nh", hMp6Nh), ("mp6pfx", hMp6Pfx),
    ("mpreach", hMpReach), ("mpunreach", hMpUnreach), ("upd", hUpd), ("fromerr", hFromErr), ("bitmap", hBitmap)]
 
 end Driver
